@@ -441,6 +441,18 @@ def literal_collections(tree) -> Dict[str, set]:
     return {k: v for k, v in out.items() if count.get(k) == 1}
 
 
+def literal_dicts(tree) -> Dict[str, dict]:
+    """module-level NAME = {literal: expr, ...} bound once: name -> {key: value node}"""
+    out, count = {}, {}
+    for s_ in tree.body:
+        if isinstance(s_, ast.Assign) and len(s_.targets) == 1 and isinstance(s_.targets[0], ast.Name):
+            nm, v = s_.targets[0].id, s_.value
+            count[nm] = count.get(nm, 0) + 1
+            if isinstance(v, ast.Dict) and v.keys and all(k is not None and isinstance(k, ast.Constant) for k in v.keys):
+                out[nm] = {k.value: x for k, x in zip(v.keys, v.values)}
+    return {k: v for k, v in out.items() if count.get(k) == 1}
+
+
 def _lit_test(e, var: str):
     r = lit_test_any(e)
     if r is None or path_of(r[0]) != var:
@@ -504,20 +516,29 @@ def expected_text(src: str, kc=None) -> str:
     return pn(_SymOrder().visit(e))
 
 
-def case_valuation(fn, var: str, value):
-    """valuation for sa.pathtable.walk that decides every test of `fn` on the literal-valued variable `var` as `var == value` (OTHER: none of the literals)"""
+def case_valuation(fn, var: str, value, consts=None):
+    """valuation for sa.pathtable.walk that decides every test of `fn` on the literal-valued subject `var` (a name, or any expression given as text such
+    as `BC.lower()`; locals holding it are resolved) as `var == value` (OTHER: none of the literals). `consts`: module-level literal tables."""
     from ..pathtable import _strip_not
     from ..pattern import norm as pn
-    from ..cfg import CFG
+    from ..flow import Expander
     val = {}
-    for t in CFG(fn).tests():
+    ex = Expander(fn)
+    want = pn(var)
+    for t in ex.cfg.tests():
         core, _ = _strip_not(t.ast)
-        r = _lit_test(core, var)
-        if r is None:
-            continue
-        lits, pos = r
-        holds = (value in lits) if value is not OTHER else False
-        val[pn(core)] = holds if pos else not holds
+        try:
+            exp = ex.expand(core, t)
+        except Exception:
+            exp = core
+        for c in (core, exp):
+            r = lit_test_any(c, consts)
+            if r is None or pn(r[0]) != want:
+                continue
+            _, lits, pos = r
+            holds = (value in lits) if value is not OTHER else False
+            val[pn(core)] = holds if pos else not holds
+            val[pn(exp)] = holds if pos else not holds
     return val
 
 
